@@ -26,6 +26,10 @@ Reject(why) == /\ bad' = Append(bad, [sid |-> sid, line |-> l, why |-> why]) /\ 
 Step == /\ l <= Len(Log) /\ l' = l + 1
         /\ LET e == Log[l] IN
            CASE e.ev = "reset" -> sid' = e.sid /\ skip' = FALSE /\ cands' = {Init0(e.start)} /\ lens' = e.lens /\ hp' = 0 /\ UNCHANGED bad
+             [] e.ev = "unsettled" /\ ~skip ->
+                  \* a key that is not waited for (a background load is in flight): it acts on the pages as the keymap says;
+                  \* whether a cursor movement found its item loaded yet is settled at the resync line
+                  cands' = UNION {{r.st : r \in KeyNext(c, e.k)} : c \in cands} /\ UNCHANGED <<sid, skip, bad, lens, hp>>
              [] e.ev = "resync" /\ ~skip ->
                   \* keys (cursor movements only) arrived while a background load was in flight: where the cursor ended up
                   \* depends on the timing, everything else does not - the pages must be exactly what the keymap says
